@@ -184,6 +184,41 @@ LIFETIME = [
                                  "let it = vec![mk_good(), mk_good()].into_con_iter(); sink(it.next()); let s = it.into_seq_iter(); sink(s);"),
 ]
 
+CUSTOM_ATOMIC_ITER = """
+use orx_concurrent_iter::iter::atomic_iter::AtomicIter;
+/// a user-defined atomic iterator over a slice; `STATE` is extra state touched by every pull
+struct Mine<'a> { slice: &'a [Good], counter: AtomicCounter, state: STATE }
+impl<'a> AtomicIter<&'a Good> for Mine<'a> {
+    fn counter(&self) -> &AtomicCounter { &self.counter }
+    fn progress_and_get_begin_idx(&self, n: usize) -> Option<usize> {
+        let b = self.counter.fetch_and_add(n);
+        if b < self.slice.len() { Some(b) } else { None }
+    }
+    fn get(&self, i: usize) -> Option<&'a Good> { TOUCH; self.slice.get(i) }
+    fn fetch_n(&self, n: usize) -> Option<NextChunk<&'a Good, impl ExactSizeIterator<Item = &'a Good>>> {
+        let b = self.progress_and_get_begin_idx(n)?;
+        let e = (b + n).min(self.slice.len());
+        Some(NextChunk { begin_idx: b, values: self.slice[b..e].iter() })
+    }
+    fn early_exit(&self) { self.counter.store(self.slice.len()) }
+}
+"""
+
+def custom_probes():
+    """the public low-level trait: adaptors over a user-defined atomic iterator that is not thread-safe"""
+    out = []
+    variants = {"sync": ("std::sync::atomic::AtomicUsize", "self.state.fetch_add(1, std::sync::atomic::Ordering::Relaxed)", "std::sync::atomic::AtomicUsize::new(0)", "accept"),
+                "nonsync": ("Cell<usize>", "self.state.set(self.state.get() + 1)", "Cell::new(0)", "reject")}
+    for vn, (ty, touch, init, expect) in variants.items():
+        for ad in ("cloned", "copied"):
+            for un, use in (("scope", "std::thread::scope(|s| { s.spawn(|| { while let Some(x) = it.fetch_one() { sink(x.value); } }); s.spawn(|| { while let Some(x) = it.fetch_one() { sink(x.value); } }); });"),
+                            ("spawn", "let h = std::thread::spawn(move || { while let Some(x) = it.fetch_one() { sink(x.value); } }); h.join().unwrap();")):
+                body = CUSTOM_ATOMIC_ITER.replace("STATE", ty).replace("TOUCH", touch)
+                main = f"let v: &'static Vec<Good> = Box::leak(Box::new(vec![mk_good(), mk_good(), mk_good()])); let it = Mine {{ slice: v.as_slice(), counter: AtomicCounter::new(), state: {init} }}.{ad}();\n    {use}"
+                out.append({"name": f"custom.{ad}.{vn}.{un}", "src": PRELUDE + body + "fn main() {\n    " + main + "\n}\n", "expect": expect, "errors": BOUND_ERRORS, "twin": f"custom.{ad}.sync.{un}",
+                            "group": "user-defined-atomic-iterator", "ctor": f"custom_{ad}", "elem": "good", "use": un})
+    return out
+
 def lifetime_probes():
     out = []
     for name, bad, good in LIFETIME:
@@ -192,7 +227,7 @@ def lifetime_probes():
     return out
 
 def all_probes():
-    return bound_probes() + lifetime_probes()
+    return bound_probes() + custom_probes() + lifetime_probes()
 
 def build_rlib():
     env = cargo_env({"CARGO_TARGET_DIR": os.path.join(TARGET, "plain")})
